@@ -6,6 +6,7 @@ mod wire;
 mod c01;
 mod c03;
 mod c05;
+mod c09;
 mod ctx;
 mod c06;
 mod c10;
@@ -96,6 +97,7 @@ fn main() {
         "c02" => c03::run(&a, &mut out, true),
         "c03" => c03::run(&a, &mut out, false),
         "c05" => c05::run(&a, &mut out),
+        "c09" => c09::run(&a, &mut out),
         "c12" => ctx::run(&a, &mut out, "c12"),
         "c13" => ctx::run(&a, &mut out, "c13"),
         "c14" => ctx::run(&a, &mut out, "c14"),
